@@ -73,8 +73,8 @@ def cover : List (String × List Cover) := [
   ("amgcl/coarsening/tentative_prolongation.hpp|tentative_prolongation|P.col+val", [.thm "Amgcl.C10c.tentative_prolongation_defined", .poison "h_pipeline"]),
   ("amgcl/coarsening/tentative_prolongation.hpp|tentative_prolongation|P.ptr", [.thm "Amgcl.C10d.tentative_ns_ptr_defined", .poison "h_pipeline"]),
   ("amgcl/coarsening/tentative_prolongation.hpp|tentative_prolongation|P.ptr#2", [.thm "Amgcl.C10c.tentative_prolongation_defined", .poison "h_pipeline"]),
-  ("amgcl/detail/spgemm.hpp|spgemm_rmerge|C.col+val", [.poison "h_pipeline"]),
-  ("amgcl/detail/spgemm.hpp|spgemm_rmerge|C.ptr", [.poison "h_pipeline"]),
+  ("amgcl/detail/spgemm.hpp|spgemm_rmerge|C.col+val", [.thm "Amgcl.C10f.spgemm_rmerge_defined", .poison "h_pipeline"]),
+  ("amgcl/detail/spgemm.hpp|spgemm_rmerge|C.ptr", [.thm "Amgcl.C10f.spgemm_rmerge_defined", .poison "h_pipeline"]),
   ("amgcl/detail/spgemm.hpp|spgemm_saad|C.col+val", [.thm "Amgcl.C10.product_cells_all_written", .poison "h_pipeline"]),
   ("amgcl/detail/spgemm.hpp|spgemm_saad|C.ptr", [.thm "Amgcl.C10.product_cells_all_written", .poison "h_pipeline"]),
   ("amgcl/mpi/coarsening/pmis.hpp|pmis::conn_strength|S_loc.col", [.poison "h_mpi_solve_poison"]),
@@ -136,20 +136,20 @@ def cover : List (String × List Cover) := [
   ("amgcl/preconditioner/cpr_drs.hpp|cpr_drs::init|scatter.ptr#2", [.thm "Amgcl.C10e.cpr_scatter_defined", .poison "h_pipeline"]),
   ("amgcl/preconditioner/cpr_drs.hpp|cpr_drs::update_transfer|fpp.col+val", [.thm "Amgcl.C10e.cpr_drs_fpp_defined", .poison "h_pipeline"]),
   ("amgcl/preconditioner/cpr_drs.hpp|cpr_drs::update_transfer|fpp.ptr", [.thm "Amgcl.C10e.cpr_drs_fpp_defined", .poison "h_pipeline"]),
-  ("amgcl/preconditioner/schur_pressure_correction.hpp|schur_pressure_correction::init|Kpp.col+val", [.poison "h_pipeline"]),
-  ("amgcl/preconditioner/schur_pressure_correction.hpp|schur_pressure_correction::init|Kpu.col+val", [.poison "h_pipeline"]),
-  ("amgcl/preconditioner/schur_pressure_correction.hpp|schur_pressure_correction::init|Kup.col+val", [.poison "h_pipeline"]),
-  ("amgcl/preconditioner/schur_pressure_correction.hpp|schur_pressure_correction::init|Kuu.col+val", [.poison "h_pipeline"]),
-  ("amgcl/preconditioner/schur_pressure_correction.hpp|schur_pressure_correction::init|L", [.poison "h_pipeline"]),
+  ("amgcl/preconditioner/schur_pressure_correction.hpp|schur_pressure_correction::init|Kpp.col+val", [.thm "Amgcl.C10f.schur_block_defined", .poison "h_pipeline"]),
+  ("amgcl/preconditioner/schur_pressure_correction.hpp|schur_pressure_correction::init|Kpu.col+val", [.thm "Amgcl.C10f.schur_block_defined", .poison "h_pipeline"]),
+  ("amgcl/preconditioner/schur_pressure_correction.hpp|schur_pressure_correction::init|Kup.col+val", [.thm "Amgcl.C10f.schur_block_defined", .poison "h_pipeline"]),
+  ("amgcl/preconditioner/schur_pressure_correction.hpp|schur_pressure_correction::init|Kuu.col+val", [.thm "Amgcl.C10f.schur_block_defined", .poison "h_pipeline"]),
+  ("amgcl/preconditioner/schur_pressure_correction.hpp|schur_pressure_correction::init|L", [.thm "Amgcl.C10f.schur_L_defined", .poison "h_pipeline"]),
   ("amgcl/relaxation/ilu0.hpp|ilu0::ilu0|D", [.thm "Amgcl.C10c.ilu0_defined", .poison "h_pipeline"]),
   ("amgcl/relaxation/ilu0.hpp|ilu0::ilu0|L.col+val", [.thm "Amgcl.C10d.ilu0_LU_defined", .poison "h_pipeline"]),
   ("amgcl/relaxation/ilu0.hpp|ilu0::ilu0|L.ptr", [.thm "Amgcl.C10d.ilu0_LU_defined", .poison "h_pipeline"]),
   ("amgcl/relaxation/ilu0.hpp|ilu0::ilu0|U.col+val", [.thm "Amgcl.C10d.ilu0_LU_defined", .poison "h_pipeline"]),
   ("amgcl/relaxation/ilu0.hpp|ilu0::ilu0|U.ptr", [.thm "Amgcl.C10d.ilu0_LU_defined", .poison "h_pipeline"]),
   ("amgcl/relaxation/iluk.hpp|iluk::iluk|D", [.thm "Amgcl.C10d.iluk_D_defined", .poison "h_pipeline"]),
-  ("amgcl/relaxation/ilup.hpp|ilup::ilup|P.val", [.poison "h_pipeline"]),
-  ("amgcl/relaxation/ilup.hpp|symb_product|C.col", [.poison "h_pipeline"]),
-  ("amgcl/relaxation/ilup.hpp|symb_product|C.ptr", [.poison "h_pipeline"]),
+  ("amgcl/relaxation/ilup.hpp|ilup::ilup|P.val", [.thm "Amgcl.C10f.ilup_Pval_defined", .poison "h_pipeline"]),
+  ("amgcl/relaxation/ilup.hpp|symb_product|C.col", [.thm "Amgcl.C10f.ilup_symb_product_defined", .poison "h_pipeline"]),
+  ("amgcl/relaxation/ilup.hpp|symb_product|C.ptr", [.thm "Amgcl.C10f.ilup_symb_product_defined", .poison "h_pipeline"]),
   ("amgcl/relaxation/ilut.hpp|ilut::ilut|D", [.thm "Amgcl.C10d.ilut_D_defined", .poison "h_pipeline"]),
   ("amgcl/relaxation/ilut.hpp|ilut::ilut|L.col+val", [.thm "Amgcl.C10d.ilut_LU_defined", .poison "h_pipeline"]),
   ("amgcl/relaxation/ilut.hpp|ilut::ilut|L.ptr", [.thm "Amgcl.C10d.ilut_LU_defined", .poison "h_pipeline"]),
